@@ -323,7 +323,10 @@ def run_file_cvals(ctx, desc):
             elif c.kind == "dependent":
                 variants = [(c.depends_on, u, lo, hi, "range") for u, (lo, hi) in c.ranges.items()]
             for uctl, unit, lo, hi, kind in variants:
-                for v in sorted({lo, hi, (lo + hi) // 2, min(hi, lo + 1)}):
+                vals = {lo, hi, (lo + hi) // 2, min(hi, lo + 1)} | {x for x in (-2, -1, 0, 1, 255, 256, 32767, 32768) if lo <= x <= hi}
+                if kind == "no_offset" and hi - lo <= 1024:
+                    vals = set(range(lo, hi + 1))  # stored as they are, negative ones included: every value through the file
+                for v in sorted(vals):
                     ctx.case()
                     mod = cls()
                     if uctl:
